@@ -130,6 +130,38 @@ def cmp_eq(out, cls, key, py, mo, pk, mk, transform=None):
         out.append(F(cls, '%s~%s' % (pk, mk), a, b))
 
 
+def chunk_exact_cases(g, n):
+    """values of variable-length types whose content fills exactly 1..4 chunks (no padding in the last
+    chunk), under limits of several tree depths, alone and nested"""
+    r = g.rng
+    out = []
+    for _ in range(n):
+        nbytes = 32 * r.choice([1, 1, 2, 3, 4])
+        k = r.choice(['Bl', 'Bl', 'u8', 'u16', 'u64', 'u128', 'bool', 'bl'])
+        if k == 'Bl':
+            lim = r.choice([nbytes, nbytes + 1, 65, 100, 256, 1024, 2**20, 2**40])
+            lim = max(lim, nbytes)
+            t, v = ['Bl', lim], 'x' + ''.join('%02x' % r.randrange(256) for _ in range(nbytes))
+        elif k == 'bl':
+            nb = nbytes * 8
+            lim = max(nb, r.choice([nb, nb + 1, 513, 2048, 2**30]))
+            t, v = ['bl', lim], 'b' + ''.join(r.choice('01') for _ in range(nb))
+        else:
+            per = 32 if k == 'bool' else 32 // UINT_W[k]
+            cnt = per * (nbytes // 32)
+            lim = max(cnt, r.choice([cnt, cnt + 1, 3 * cnt, 1000, 2**40]))
+            t, v = ['list', k, lim], ['s'] + [g.val(k, 1) for _ in range(cnt)]
+        c = r.random()
+        if c < 0.2:
+            t, v = ['cont', 'u8', t], ['s', '3', v]
+        elif c < 0.3:
+            t, v = ['list', t, 3], ['s', v]
+        elif c < 0.4:
+            t, v = ['union', 'none', t], ['u', 1, v]
+        out.append(show(['val', t, v]))
+    return out
+
+
 class C01(ValProp):
     pid = 'C01'
     theorems = ['Rmk.C01.construct_root']
@@ -150,6 +182,7 @@ class C01(ValProp):
             out.append(show(['hist', t, v] + ops))
         for d in ([0, 1, 2, 31, 32, 33, 64, 100, 255] if tier == 'quick' else range(256)):
             out.append(show(['zh', d]))
+        out += chunk_exact_cases(g, n // 6)
         return out
 
     def compare(self, case, py, mo, stats):
@@ -410,6 +443,33 @@ class C14(HistProp):
 
     def generate(self, g, tier, focus=None):
         out = HistProp.generate(self, g, tier)
+        r = g.rng
+        # full lists / bitlists (limits on and off the chunk boundaries): over-limit appends, then room is made
+        # and used up again
+        for _ in range(self.n(tier) // 3):
+            if r.random() < 0.6:
+                lim = r.choice([1, 2, 7, 8, 10, 255, 256, 257, 300, 512, 513])
+                t = ['bl', lim]
+                one = lambda: r.choice('01')
+            else:
+                e = r.choice(['u8', 'u16', 'u64', 'u256', 'bool', ['cont', 'u8'], ['Bv', 3], ['list', 'u8', 2]])
+                lim = r.choice([1, 2, 3, 4, 5, 8, 9, 31, 32, 33])
+                t = ['list', e, lim]
+                one = lambda: g.val(e, 3)
+            v = g.max_val(t)
+            if v is None:
+                continue
+            ops = [['app', one()], ['pop'], ['app', one()], ['app', one()], ['set', lim, one()], ['pop'], ['pop'], ['app', one()],
+                   ['app', one()], ['app', one()]]
+            if lim == 1:
+                ops = [['app', one()], ['pop'], ['app', one()], ['app', one()], ['pop'], ['pop']]
+            out.append(show(['hist', t, v] + ops))
+        # invalid operations through held child views: every enclosing view must stay as it was
+        for _ in range(self.n(tier) // 3):
+            t = nested_ty(g, r.choice([1, 2, 2, 3]))
+            v = g.val(t, 12)
+            sg = StoreGen(g, t, v)
+            out.append(show(['store', t, v] + sg.history(r.choice([6, 15, 30]), 0.35)))
         # construction: every spelling of the constructor arguments, valid and invalid values
         for _ in range(self.n(tier) * 2):
             if g.rng.random() < 0.25:
@@ -433,6 +493,8 @@ class C14(HistProp):
     def compare(self, case, py, mo, stats):
         out = []
         bump(stats, 'kinds', kind(case[1]))
+        if case[0] == 'store':
+            return StoreProp.compare_store(self, case, py, mo, stats, 'views')
         if case[0] == 'ctor':
             bump(stats, 'ops', 'ctor:' + case[2] + (':invalid' if mo['wt'] != '1' else ''))
             if mo['wt'] != '1':
@@ -770,8 +832,8 @@ class C13(Prop):
             x, y = (w, a), (ow, b)
             if r.random() < 0.4:
                 if op == 'pow' and ow == '-':
-                    y = (ow, r.choice([0, 1, 2, 3, -2, -1, 10]))
-                    x = (w, r.choice([0, 1, 2, 3, 8]))
+                    y = (ow, r.choice([0, 1, 2, 2, 3, -2, -1, 10]))
+                    x = (w, r.choice([0, 1, 2, 3, 8, 8 * w - 1, 8 * w, min(8 * w + 1, 255), 5 * w]))
                 if op in ('lshift', 'rshift'):
                     # the right operand is the (small) count also after swapping
                     x = (w, r.choice([0, 1, 7, 8, 8 * w - 1, 8 * w, 8 * w + 1, 200]))
@@ -786,6 +848,43 @@ class C13(Prop):
                 sw = r.choice([x for x in W if x != w])
                 sv = r.choice([0, 1, (1 << (8 * min(w, sw))) - 1, min((1 << (8 * w)), (1 << (8 * sw)) - 1), self.operand_val(g, sw)])
                 out.append(show(['uctorw', w, sw, sv]))
+        # results right at the edge of the width: products / sums / differences / powers / shifts whose exact
+        # value is within a few units of 2**bits (or of 0), factors whose bit lengths add up to bits and bits + 1
+        for _ in range(self.n(tier) // 3):
+            w = r.choice(W)
+            bits = 8 * w
+            top = 1 << bits
+            op = r.choice(['mul', 'mul', 'mul', 'add', 'sub', 'pow', 'lshift'])
+            if op == 'mul':
+                la = r.randint(1, bits)
+                a = r.randrange(1 << (la - 1), 1 << la)
+                if r.random() < 0.5:
+                    lb = max(1, bits + r.choice([0, 1, 1, 2]) - la)
+                    b = r.randrange(1 << (lb - 1), 1 << lb)
+                else:
+                    b = max(0, (top + r.choice([-a, -1, 0, a - 1, a])) // a)
+            elif op == 'add':
+                a = r.randrange(top)
+                b = max(0, top - a + r.choice([-2, -1, 0, 1]))
+            elif op == 'sub':
+                a = r.randrange(top)
+                b = max(0, a + r.choice([-1, 0, 1, 2]))
+            elif op == 'pow':
+                b = r.choice([2, 3, 4, 5, 7, 8])
+                root = int(round(top ** (1.0 / b))) if bits <= 64 else 1 << (bits // b)
+                a = max(0, root + r.choice([-1, 0, 1]))
+            else:
+                b = r.randint(0, bits)
+                a = max(0, (top >> b) + r.choice([-1, 0, 1]))
+            if a >= top or (op not in ('lshift', 'pow') and b >= top):
+                continue
+            ow = r.choice([w, '-'])
+            if ow != '-' and b >= top:
+                continue
+            x, y = (w, a), (ow, b)
+            if op in ('mul', 'add') and r.random() < 0.4:
+                x, y = y, x
+            out.append(show(['uop', op, x[0], x[1], y[0], y[1]]))
         if tier == 'thorough':
             # exhaustive for width 8: every operand pair for the coercing operators (uint8 x uint8 and
             # uint8 x plain int), every shift amount 0..9, every exponent 0..8
@@ -956,8 +1055,12 @@ class C07(Prop):
                 if c < 0.3:
                     cmds.append(['get', gi])
                 elif c < 0.85:
+                    ex = r.choice([0, 1, 1])
+                    if ex and r.random() < 0.4:
+                        # expanding write several levels below the leaves (mixed left / right steps)
+                        gi = r.randint(maxg >> 2, maxg << r.choice([1, 2, 3, 4]))
                     probes = [gi, gi ^ 1 if gi > 1 else 1, r.randint(1, maxg), max(gi >> 1, 1), gi * 2, gi * 2 + 1]
-                    cmds.append(['set', gi, r.choice([0, 1, 1]), g.tree(r.choice([0, 0, 1, 2]), 0.5)] + probes)
+                    cmds.append(['set', gi, ex, g.tree(r.choice([0, 0, 1, 2]), 0.5)] + probes)
                 else:
                     cmds.append(['summ', gi])
             if r.random() < 0.3:
@@ -1149,6 +1252,15 @@ class C08(Prop):
             bad = self.bad_key(g, t)
             if bad is not None:
                 out.append(show(['path', t, bad]))
+        # huge limits and keys beyond 2**53 (where floating point arithmetic on the key would round)
+        for _ in range(self.n(tier) // 10):
+            e = r.choice(['bool', 'u8', 'u16', 'u32', 'u64', 'u128', 'u256', ['cont', 'u8', 'u64'], ['Bv', 48]])
+            lim = r.choice([2**54, 2**56 + 1, 2**60, 2**63 - 1, 2**64])
+            t = r.choice([['list', e, lim], ['vec', e, lim], ['bl', lim], ['Bl', lim]])
+            key = r.choice([lim - 1, lim - r.randrange(1, 70), 2**53 + r.randrange(1, 2**12), r.randrange(2**53, lim), lim])
+            wrap = r.random() < 0.3
+            tt = ['cont', 'u8', t, 'u16'] if wrap else t
+            out.append(show(['path', tt] + ([1] if wrap else []) + [key] + ([1] if e[0] == 'cont' and key < lim and r.random() < 0.5 else [])))
         if tier == 'thorough':
             # exhaustive: every key (and the pseudo keys) of a table of small types, two levels deep
             table = [['list', 'u16', 17], ['vec', 'u64', 5], ['bl', 300], ['bv', 257], ['Bv', 33], ['Bl', 65],
@@ -1211,6 +1323,8 @@ class C08(Prop):
             return out
         if py.get('p.g') != sg:
             out.append(F('prop', 'static gindex', py.get('p.g'), sg))
+        if py.get('p.pre') != mo.get('i.pre'):
+            out.append(F('prop', 'gindices of the kept prefix paths after they were extended again', py.get('p.pre'), mo.get('i.pre')))
         if 'p.concat' in py and set(py['p.concat']) - {'1'}:
             out.append(F('prop', 'path concatenation', py['p.concat'], 'all 1'))
         if ig != sg:
@@ -1230,9 +1344,20 @@ class StoreProp(Prop):
 
     def generate(self, g, tier, focus=None):
         out = []
-        for _ in range(self.n(tier)):
-            t = nested_ty(g, g.rng.choice([1, 2, 2, 3]))
-            v = g.val(t, 12)
+        r = g.rng
+        for k in range(self.n(tier)):
+            if k % 10 == 9:
+                # bitlists sitting on a 256-bit chunk boundary, alone and nested (appends / pops / sets through
+                # views move them across it), next to other fields
+                lim = r.choice([256, 300, 512, 513, 1000])
+                ln = min(lim, r.choice([254, 255, 256, 257, 511, 512]))
+                bl = ['bl', lim]
+                bv = 'b' + ''.join(r.choice('01') for _ in range(ln))
+                t, v = r.choice([(bl, bv), (['cont', 'u8', bl, 'u16'], ['s', '1', bv, '2']),
+                                 (['list', bl, 3], ['s', bv, 'b1']), (['vec', ['cont', bl], 2], ['s', ['s', bv], ['s', 'b']])])
+            else:
+                t = nested_ty(g, r.choice([1, 2, 2, 3]))
+                v = g.val(t, 12)
             sg = StoreGen(g, t, v)
             ops = sg.history(g.rng.choice([6, 15, 40] if tier == 'quick' else [6, 15, 40, 100]), self.p_bad)
             out.append(show(['store', t, v] + ops))
